@@ -23,6 +23,12 @@ FALSY = {'F', 'N', 'Fy'}
 def cmp_canon(op: ast.cmpop, l: str, r: str) -> tuple[str, bool] | None:
     """One canonical positive atom per comparison + negation flag: `a != b` = not `a == b` (operands sorted), `a >= b` = not `a < b`,
     `a > b` = `b < a`, `a <= b` = not `b < a` (total orders assumed: the library compares counters, sizes and timestamps)."""
+    if isinstance(op, (ast.Eq, ast.NotEq, ast.Lt, ast.LtE, ast.Gt, ast.GtE)):
+        lr = _lin_sides(l, r)
+        if lr is not None:
+            l, r = lr[0], lr[1]
+            if lr[2] and isinstance(op, (ast.Lt, ast.LtE, ast.Gt, ast.GtE)):
+                op = {ast.Lt: ast.Gt, ast.Gt: ast.Lt, ast.LtE: ast.GtE, ast.GtE: ast.LtE}[type(op)]()
     if isinstance(op, (ast.Eq, ast.NotEq)):
         if r < l:
             l, r = r, l
@@ -42,6 +48,45 @@ def cmp_canon(op: ast.cmpop, l: str, r: str) -> tuple[str, bool] | None:
     return None
 
 
+def _lin_sides(l: str, r: str) -> tuple[str, str, bool] | None:
+    """A comparison with sums or differences on a side, with every term moved to the side where its coefficient is positive: `n - k > 0` and `k < n` compare the same
+    two quantities.  Returns (left text, right text, swapped?) or None when neither side is a sum/difference or a side is not linear."""
+    if not any(t in l or t in r for t in (' + ', ' - ')):
+        return None
+    from .loops import lin
+
+    try:
+        le, re_ = ast.parse(l, mode='eval').body, ast.parse(r, mode='eval').body
+    except SyntaxError:
+        return None
+    if not any(isinstance(x, ast.BinOp) and isinstance(x.op, (ast.Add, ast.Sub)) for x in (le, re_)):
+        return None  # only a top-level sum/difference is rearranged
+    a, b = lin(le, {}), lin(re_, {})
+    if a is None or b is None:
+        return None
+    d = dict(a)
+    for k, v in b.items():
+        d[k] = d.get(k, 0) - v
+    d = {k: v for k, v in d.items() if v}
+    if not d or not all(isinstance(v, int) for v in d.values()):
+        return None
+
+    def side(terms: dict) -> str:
+        if not terms:
+            return '0'
+        parts = []
+        for k in sorted((k for k in terms if k != 1), key=str):
+            parts.append(k if terms[k] == 1 else f'{terms[k]} * {k}')
+        if 1 in terms:
+            parts.append(str(terms[1]))
+        return ' + '.join(parts)
+
+    # l - r = d  ->  (positive part) OP (negated negative part)
+    pos = {k: v for k, v in d.items() if v > 0}
+    neg = {k: -v for k, v in d.items() if v < 0}
+    return side(pos), side(neg), False
+
+
 def _type_test_of_local(atom: str) -> bool:
     """`isinstance(<local name>, <types>)`: the class of the object a local names does not change under calls or suspensions (rebinding the local kills the atom)."""
     return re.fullmatch(r'isinstance\((\w+), [^()]*(\([^()]*\))?\)', atom) is not None
@@ -51,6 +96,73 @@ def _unbool(e: ast.AST) -> ast.AST:
     """`bool(X)` has the truth value of X."""
     while isinstance(e, ast.Call) and isinstance(e.func, ast.Name) and e.func.id == 'bool' and len(e.args) == 1 and not e.keywords:
         e = e.args[0]
+    return _uncount(e)
+
+
+# (timestamp attribute, status attribute, status value): set by the loader when the status property of the analysed tree reads `'<value>' if self.<timestamp> else ...`,
+# i.e. "the timestamp is set" and "the status is <value>" are one fact with two spellings.
+STATUS_SYNONYMS: list[tuple[str, str, str]] = []
+
+
+def configure_status_synonyms(trees: list[ast.Module]) -> list[str]:
+    STATUS_SYNONYMS.clear()
+    log = []
+    for tree in trees:
+        for cls in [n for n in tree.body if isinstance(n, ast.ClassDef)]:
+            for fn in [n for n in cls.body if isinstance(n, ast.FunctionDef) and any(isinstance(d, ast.Name) and d.id == 'property' for d in n.decorator_list)]:
+                body = [st for st in fn.body if not (isinstance(st, ast.Expr) and isinstance(st.value, ast.Constant))]
+                if len(body) == 1 and isinstance(body[0], ast.Return) and isinstance(body[0].value, ast.IfExp):
+                    ie = body[0].value
+                    self_ = fn.args.args[0].arg if fn.args.args else 'self'
+                    if isinstance(ie.body, ast.Constant) and isinstance(ie.body.value, str) and isinstance(ie.test, ast.Attribute) and isinstance(ie.test.value, ast.Name) and ie.test.value.id == self_ \
+                            and not any(isinstance(x, ast.Constant) and x.value == ie.body.value for x in ast.walk(ie.orelse)):
+                        STATUS_SYNONYMS.append((ie.test.attr, fn.name, ie.body.value))
+                        log.append(f'{cls.name}.{fn.name} == {ie.body.value!r} is another spelling of "{ie.test.attr} is set" (read off the property body)')
+    return log
+
+
+def _status_synonym(e: ast.AST) -> ast.AST:
+    if not STATUS_SYNONYMS:
+        return e
+    neg = False
+    x = e
+    if isinstance(e, ast.Compare) and len(e.ops) == 1 and isinstance(e.ops[0], (ast.Is, ast.IsNot)) and isinstance(e.comparators[0], ast.Constant) and e.comparators[0].value is None:
+        neg = isinstance(e.ops[0], ast.Is)
+        x = e.left
+    if isinstance(x, ast.Attribute):
+        for ts, st, val in STATUS_SYNONYMS:
+            if x.attr == ts:
+                return ast.copy_location(ast.Compare(left=ast.Attribute(value=x.value, attr=st, ctx=ast.Load()), ops=[ast.NotEq() if neg else ast.Eq()], comparators=[ast.Constant(value=val)]), e)
+    return e
+
+
+def _is_count(e: ast.AST) -> bool:
+    """A non-negative integer by construction: `q.qsize()` or `len(x)`."""
+    return isinstance(e, ast.Call) and not e.keywords and (
+        (isinstance(e.func, ast.Attribute) and e.func.attr == 'qsize' and not e.args) or (isinstance(e.func, ast.Name) and e.func.id == 'len' and len(e.args) == 1))
+
+
+def _uncount(e: ast.AST) -> ast.AST:
+    """A count compared with zero has the truth value of the count (or of its negation): `n == 0` is `not n`; `n != 0`, `n > 0`, `n >= 1`, `0 < n` are `n`."""
+    e = _status_synonym(e)
+    if not (isinstance(e, ast.Compare) and len(e.ops) == 1):
+        return e
+    l, op, r = e.left, e.ops[0], e.comparators[0]
+    if _is_count(r) and isinstance(l, ast.Constant):
+        flip = {ast.Lt: ast.Gt, ast.Gt: ast.Lt, ast.LtE: ast.GtE, ast.GtE: ast.LtE}
+        l, r = r, l
+        op = flip.get(type(op), type(op))()
+    if not (_is_count(l) and isinstance(r, ast.Constant) and type(r.value) is int):
+        return e
+    k = r.value
+    pos = (isinstance(op, (ast.NotEq, ast.Gt)) and k == 0) or (isinstance(op, ast.GtE) and k == 1)
+    neg = (isinstance(op, (ast.Eq, ast.LtE)) and k == 0) or (isinstance(op, ast.Lt) and k == 1)
+    if isinstance(l.func, ast.Name) and (pos or neg):
+        l = l.args[0]  # a builtin container is truthy exactly when its length is not zero
+    if pos:
+        return l
+    if neg:
+        return ast.copy_location(ast.UnaryOp(op=ast.Not(), operand=l), e)
     return e
 
 
